@@ -41,7 +41,7 @@ class Menu(object):
 
 VAR_KINDS = ('W', 'R', 'RW', 'AUG', 'DEL', 'AND', 'OR', 'NOT', 'IFEXP', 'CMP', 'COMP', 'DEFR', 'DEFW', 'DEFIFW', 'LAM', 'CALL',
              'CALLK', 'CALLT', 'DEF2R', 'DEF2W', 'CALLP', 'CALLP0')
-NOVAR_KINDS = ('TUP', 'ATTR', 'SUB', 'RATTR', 'RSUB', 'raise', 'S', 'PASS', 'LAMBDA', 'CALLG', 'CLASS', 'FAIL', 'DEFN', 'ALIAS', 'DEFT', 'MKP')
+NOVAR_KINDS = ('TUP', 'ATTR', 'SUB', 'RATTR', 'RSUB', 'raise', 'S', 'PASS', 'LAMBDA', 'CALLG', 'CLASS', 'FAIL', 'DEFN', 'ALIAS', 'DEFT', 'MKP', 'BINDP', 'SUBPA', 'SUBPI')
 
 
 def simple_stmts(menu, loop, fin):
@@ -270,6 +270,12 @@ class Render(object):
       e(ind + 1, 'return %s' % s[1])
     elif k == 'LAM':
       e(ind, 'g = lambda: %s * 100 + %d' % (s[1], self.new()))
+    elif k == 'BINDP':       # an object variable first bound here ...
+      e(ind, 'p = zo')
+    elif k == 'SUBPA':       # ... whose attribute / element is the index of a subscript store
+      e(ind, 'd[p.key] = d[p.key] * 100 + %d' % self.new())
+    elif k == 'SUBPI':
+      e(ind, "d[p.keys[0]] = d[p.keys[0]] * 100 + %d" % self.new())
     elif k == 'MKP':         # a partial with a bound keyword (needs the helpers; the partial object is local to the run)
       e(ind, 'p = functools.partial(hk, s=%d)' % self.new())
     elif k == 'CALLP':       # ... called with a further call-site keyword
